@@ -22,7 +22,7 @@ CHUNK = {"quick": 16, "thorough": 64}
 PROBES = ["keylen_2", "keylen_3_15", "keylen_16_100", "keylen_101_255", "keylen_256", "periodic_key", "opts_1", "opts_2",
           "opts_3", "opts_4", "container_xorpe", "area_at_0", "stray_marker_before_area", "fault_in_settings", "fault_in_padding", "fault_in_checksum",
           "fault_in_marker", "fault_in_guard_settings", "fault_checksum_delta", "fault_checksum_zero", "fault_checksum_absent", "rejected_under_fault",
-          "recovered_under_fault", "metadata_only", "entry_iter", "history_genuine_then_corrupted", "history_corrupted_then_genuine"]
+          "recovered_under_fault", "metadata_only", "entry_iter", "marker_at_block_boundary", "history_genuine_then_corrupted", "history_corrupted_then_genuine"]
 RULE = ("seeded plans: settings list (1-40 records, zero-padded to 6144) masked with an environmental key of length 2..256 "
         "(each length drawn uniformly; aperiodic or periodic), every non-empty subset of the four guard options, protected "
         "area at offset 0..3000 in random filler, raw or inside a XorEncoded PE; 35% of runs inject 1-2 storage faults "
@@ -69,10 +69,15 @@ def generate(rng, tier, index):
             idx += 1
     container = rng.choice(["raw", "raw", "xorpe"])
     at = rng.choice([0, 0, 1, 7, 100, rng.randint(0, 3000)])
+    boundary = rng.random() < 0.3
+    if boundary:
+        # the 12-byte marker window (6 bytes before / 6 bytes after the end of the masked configuration) lies across or next
+        # to a multiple of 4096 / 8192: block-wise scanners have to carry it over
+        at = max(0, rng.choice([8192, 8192, 12288, 16384]) - 6138 + rng.randint(-14, 8))
     plan = {"container": container, "size": at + rng.choice([0, 0, 50, 700]), "filler": {"kind": "random", "seed": rng.getrandbits(24)},
             "guards": [{"at": at, "settings": settings, "env_key": hx(key), "guard": guard, "checksum_delta": 0}],
             "faults": [], "entry": rng.choice(["from_bytes", "from_bytes", "from_file", "iter"])}
-    if at >= 6200 or rng.random() < 0.25:
+    if at >= 6200 or (rng.random() < 0.25 and not boundary):
         # a stray guard marker (12 bytes satisfying the marker relation) with >= 6144 bytes in front of it, before the real
         # area: the scanner reports it as a guard configuration without beacon config, then finds the real one
         if at < 6200:
@@ -222,6 +227,8 @@ def _stage(plan: dict, res: Result, stage: str) -> Result:
         res.probes["container_xorpe"] += 1
     if g["at"] == 0:
         res.probes["area_at_0"] += 1
+    if any(0 <= (area + 6138 + 11) % m < 11 + 6 for m in (4096,)):
+        res.probes["marker_at_block_boundary"] += 1
     if plan.get("stray"):
         res.probes["stray_marker_before_area"] += 1
     for f in plan["faults"]:
